@@ -43,7 +43,16 @@ MANIFEST = dict(
           "|periodic correction| <= the sum of the generated amplitudes, results NEVER move backwards as the query "
           "advances, consecutive results are one mean period apart within twice that sum and strictly increasing, "
           "the result is within P/2 + amplitude sum of the query (+ P x offset) and hence WITHIN 1.6 MONTHS of it "
-          "(at most 38.1 / 31.7 / 28.5 / 15.8 days), any other target string raises ValueError. NOT proved (no "
+          "(at most 38.1 / 31.7 / 28.5 / 15.8 days), any other target string raises ValueError; the count is the integer "
+          "nearest to (jde - J0)/P with ties to even; the four phase targets of one query are the four phases of one "
+          "lunation in order, a quarter month apart within 2.29 d, apogee / descending node follow perigee / ascending "
+          "node by half a period; the reported extreme declination is 17.4..30 deg north, -30..-17.4 deg south. "
+          "Internal consistency of the position theory: F - (L' - node) is exactly a polynomial below 0.0095 deg, "
+          "M' - (L' - perigee) agrees to the cubic term but departs by 2T^4/14712000 (0.35 deg at year -2000: a "
+          "suspected sign slip of the quartic term of M' in the source, reported); the true node is within 1.9682 deg "
+          "of the mean node; apparent positions keep latitude, distance and parallax, RA in [0,360), declination in "
+          "[-90,90], bright-limb angle in [0,360); tables 47.A/B have 60 rows with |M| <= 2, new/full and "
+          "north/south term lists have identical arguments and E-powers (kernel-decided on the regenerated data). NOT proved (no "
           "certified interval arithmetic for long trigonometric sums; triangle-inequality bounds are 355 000-415 000 "
           "km and 6.1 deg): distance 356 000-407 000 km, |latitude| <= 5.35 deg, longitude rate, fraction vs "
           "geometry, the secular rates after the Angle reduction and of the true node, agreement of the finders with "
